@@ -96,3 +96,59 @@ Proof.
   rewrite ty_eqb_refl. reflexivity.
 Qed.
 
+
+(* ---- set <-> slice, non-empty slices: the set's members are exactly the
+        elements written to the slice, each once ---- *)
+From Dials Require Import Transform.ValEq.
+
+Lemma set_add_in k kvs x : In x (map fst (set_add k kvs)) <-> x = k \/ In x (map fst kvs).
+Proof.
+  induction kvs as [|[k' v] r IH]; simpl.
+  - intuition (subst; auto).
+  - destruct (val_eqb k k') eqn:E; simpl.
+    + apply val_eqb_eq in E. subst. intuition (subst; auto).
+    + rewrite IH. intuition (subst; auto).
+Qed.
+
+Lemma set_add_nodup k kvs : NoDup (map fst kvs) -> NoDup (map fst (set_add k kvs)).
+Proof.
+  induction kvs as [|[k' v] r IH]; simpl; intros H.
+  - constructor; [intros [] | constructor].
+  - destruct (val_eqb k k') eqn:E; simpl; [exact H|].
+    inversion H as [|? ? Hn Hr]; subst. constructor; [| now apply IH].
+    rewrite set_add_in. intros [->|Hin]; [| contradiction].
+    rewrite val_eqb_refl in E. discriminate.
+Qed.
+
+Lemma set_add_values k kvs : Forall (fun kv => snd kv = VStruct []) kvs ->
+  Forall (fun kv => snd kv = VStruct []) (set_add k kvs).
+Proof.
+  induction 1 as [|[k' v] r Hv Hr IH]; simpl; [repeat constructor|].
+  destruct (val_eqb k k'); constructor; auto.
+Qed.
+
+Lemma set_fold l : forall acc,
+  NoDup (map fst acc) -> Forall (fun kv => snd kv = VStruct []) acc ->
+  let res := fold_left (fun a x => set_add x a) l acc in
+  (forall x, In x (map fst res) <-> In x l \/ In x (map fst acc)) /\
+  NoDup (map fst res) /\ Forall (fun kv => snd kv = VStruct []) res.
+Proof.
+  induction l as [|y r IH]; intros acc Hn Hv; simpl.
+  - split; [intros x0; tauto | split; assumption].
+  - destruct (IH (set_add y acc) (set_add_nodup y acc Hn) (set_add_values y acc Hv)) as (I1 & I2 & I3).
+    split; [| split; assumption]. intros x0. rewrite I1, set_add_in. intuition (subst; auto).
+Qed.
+
+Lemma setslice_elements sf f k n nm l : sf_ty sf = TMap k empty_struct_ty n ->
+  exists kvs, setslice_unmangle (Some sf) [(f, (TSlice k nm, VList l))] = Ok (sf_ty sf, VMap kvs) /\
+              (forall x, In x (map fst kvs) <-> In x l) /\
+              NoDup (map fst kvs) /\ Forall (fun kv => snd kv = VStruct []) kvs.
+Proof.
+  intros H. unfold setslice_unmangle, is_set_ty. rewrite H.
+  assert (ty_eqb empty_struct_ty empty_struct_ty = true) as -> by reflexivity. simpl.
+  rewrite ty_eqb_refl. simpl.
+  destruct (set_fold l [] (NoDup_nil _) (Forall_nil _)) as (S1 & S2 & S3).
+  eexists. split; [reflexivity|]. repeat split; auto.
+  - intros Hx. apply S1 in Hx. simpl in Hx. tauto.
+  - intros Hx. apply S1. now left.
+Qed.
